@@ -165,6 +165,34 @@ def check_corpus(corpus, fails, counts):
             r = s.search(q, limit=2, filter=fq)
             if ks(r) != [i for i in ranked if i in red][:2] or len(r) != len([i for i in ranked if i in red]):
                 fail("C14-filter-limit", "filter limit=2 -> %r len %d expected %r len %d" % (ks(r), len(r), [i for i in ranked if i in red][:2], len([i for i in ranked if i in red])))
+            # filter and mask given as query / Results / id set, under limits: hits, len() and docs() must all describe
+            # (matches n filter) - mask
+            green = set(i for i in live if "green" in docs[i]["tags"])
+            gq = query.Term("tags", "green")
+            k2d = dict((v, k_) for k_, v in d2k.items())
+            for form in ("query", "results", "set"):
+                def as_form(qq, keyset):
+                    if form == "query":
+                        return qq
+                    if form == "results":
+                        return s.search(qq, limit=None)
+                    return set(k2d[i] for i in keyset)
+                for lim in (1, 2, None):
+                    for use_f, use_m in ((False, True), (True, True), (True, False)):
+                        kw = {}
+                        exp = list(ranked)
+                        if use_f:
+                            kw["filter"] = as_form(fq, red)
+                            exp = [i for i in exp if i in red]
+                        if use_m:
+                            kw["mask"] = as_form(gq, green)
+                            exp = [i for i in exp if i not in green]
+                        r = s.search(q, limit=lim, **kw)
+                        want = exp if lim is None else exp[:lim]
+                        got_docs = sorted(d2k[d] for d in r.docs())
+                        if ks(r) != want or len(r) != len(exp) or got_docs != sorted(exp):
+                            fail("C14-filter-mask-%s" % form, "filter=%s mask=%s as %s limit=%r -> hits %r len %d docs %r expected %r / %d / %r"
+                                 % (use_f, use_m, form, lim, ks(r), len(r), got_docs, want, len(exp), sorted(exp)))
             noneq = query.Term("tags", "purple")
             r = s.search(q, limit=None, filter=noneq)
             if ks(r) != []:
